@@ -464,8 +464,14 @@ func randLit(r *rand.Rand, mode int, allowEmpty bool) string {
 	}
 }
 
+// casePool: names that differ only in the case of a letter (distinct keys for the matcher, with and without -I)
+var casePool = []string{"a", "A", "ab", "Ab", "aB", "AB", "x1", "X1", "k_", "K_", "Id", "ID", "id"}
+
 func randName(r *rand.Rand, mode int, cliSafe bool) string {
 	const cs = "abcxyz019_"
+	if r.Intn(3) == 0 {
+		return casePool[r.Intn(len(casePool))]
+	}
 	n := 1 + r.Intn(3)
 	b := make([]byte, n)
 	for i := range b {
